@@ -729,3 +729,163 @@ def generate(rnd, n, prefix, mix=None, p=BN128):
                 break
             x -= w
     return out
+
+
+def wide_compare_guarded_case(rnd, cid, p=BN128):
+    """ordering comparisons / positivity checks whose INTERNAL DIFFERENCE sits on the width boundary of check_positive, inside
+    guarded regions whose conditions are (mostly) all true: |difference| has exactly bitlength bits (accepted), bitlength+1 bits
+    (one too many: must raise under a true guard, since nothing checks the constraint there; absorbed by the dummy under a
+    false one), is exactly -2^bitlength, or has bitlength+2 bits.  `x < y` tests y-x-1, `x <= y` y-x, `x > y` x-y-1, `x >= y` x-y."""
+    cfg = cfg_for(rnd, p=p)
+    if cfg["bl"] < 4:
+        cfg["bl"] = rnd.choice([4, 8, 16])
+    cfg["ign"] = 0
+    bl = cfg["bl"]; full = 1 << bl
+    b = Builder(rnd, cfg)
+    depth = rnd.choice([1, 1, 2])
+    gvals = [1] * depth
+    if rnd.random() < 0.2:
+        gvals[rnd.randrange(depth)] = 0
+    width = rnd.choice(["bl", "bl+1", "bl+1", "bl+1", "-2^bl", "bl+2"])
+    mag = {"bl": rnd.randrange(full // 2, full), "bl+1": rnd.randrange(full, 2 * full), "-2^bl": full,
+           "bl+2": rnd.randrange(2 * full, 4 * full)}[width]
+    d = -mag if width == "-2^bl" else rnd.choice([1, -1]) * mag           # the value handed to check_positive
+    form = rnd.choice(["lt", "le", "gt", "ge", "lt", "ge", "check_positive", "assert_lt", "assert_ge", "check_positive_w"])
+    x = rnd.randrange(-mag // 2 - 2, mag // 2 + 3)
+    y = {"lt": x + 1 + d, "assert_lt": x + 1 + d, "le": x + d, "gt": x - 1 - d, "ge": x - d, "assert_ge": x - d}.get(form, 0)
+    grs = [b.operand(rnd.choice(["L", "L", "B"]), value=g) for g in gvals]
+    if form.startswith("check_positive"):
+        ra = b.emit(f"mk {rnd.choice(['priv', 'priv', 'pub'])} r{b.int_lit(d)}", "L")
+    else:
+        ra = b.emit(f"mk {rnd.choice(['priv', 'priv', 'pub'])} r{b.int_lit(x)}", "L")
+        rb = b.operand(rnd.choice("LLI"), value=y)
+    for gr in grs:
+        b.emit(f"genter r{gr}", "N")
+    if form == "check_positive":
+        rr = b.emit(f"call check_positive r{ra}", "B")
+    elif form == "check_positive_w":
+        # an explicit width n: the value has n+1 (or n, n+2) bits relative to ITS width
+        n = rnd.choice([1, 2, 3, bl - 1, bl + 1, 2 * bl])
+        mag_n = {"bl": rnd.randrange((1 << n) // 2, 1 << n), "bl+1": rnd.randrange(1 << n, 2 << n), "-2^bl": 1 << n,
+                 "bl+2": rnd.randrange(2 << n, 4 << n)}[width]
+        dn = -mag_n if width == "-2^bl" else rnd.choice([1, -1]) * mag_n
+        b.ins[ra - 1] = lit_int(dn)
+        rr = b.emit(f"call check_positive r{ra} r{b.int_lit(n)}", "B")
+    elif form.startswith("assert_"):
+        rr = b.emit(f"call {form} r{ra} r{rb}", "N")
+    else:
+        rr = b.emit(f"bin {form} r{ra} r{rb}", "B")
+    if b.kinds[rr] == "B" and rnd.random() < 0.6:
+        t = b.operand("L", value=rnd.randrange(0, 9)); f = b.operand("L", value=rnd.randrange(0, 9))
+        b.emit(f"ite r{rr} r{t} r{f}", "?")
+    for _ in grs:
+        b.emit("gleave", "N")
+    o = b.operand("L", value=rnd.randrange(0, 3))
+    r = b.emit(f"bin mul r{ra} r{o}", "?")
+    b.emit(f"call val r{r}", "I")
+    return Case(cid, cfg, b.ins, {"shape": "guarded", "op": form.replace("_w", ""), "kinds": f"difference-width:{width}",
+                                  "gvals": gvals, "depth": depth, "malformed": width != "bl"})
+
+
+def from_bits_digits_case(rnd, cid, p=BN128):
+    """the public `LinComb.from_bits` on lists whose elements are SECRETS WITH VALUES OUTSIDE {0,1}: carry-save digits xi+yi of
+    two bit vectors, signed digits -1/0/1, overlapping limbs 0..7, arbitrary small and negative integers, mixed with proper
+    bits; the recombined value is then published / multiplied / compared (a wrong shadow value shows in a later constraint)"""
+    cfg = cfg_for(rnd, p=p)
+    if cfg["bl"] < 6:
+        cfg["bl"] = rnd.choice([8, 12, 16])
+    cfg["ign"] = 1 if rnd.random() < 0.15 else 0
+    b = Builder(rnd, cfg)
+    n = rnd.randrange(1, 7)
+    style = rnd.choice(["carry-save", "carry-save", "signed", "limbs", "small", "mixed"])
+    elems = []
+    for i in range(n):
+        st = style if style != "mixed" else rnd.choice(["carry-save", "signed", "limbs", "small", "bit"])
+        mk = rnd.choice(["priv", "priv", "pub"])
+        if st == "carry-save":
+            xa = b.emit(f"mk {rnd.choice(B_KINDS + ['priv'])} r{b.int_lit(rnd.choice([0, 1, 1]))}", "B")
+            ya = b.emit(f"mk {rnd.choice(B_KINDS + ['priv'])} r{b.int_lit(rnd.choice([0, 1, 1]))}", "B")
+            elems.append(b.emit(f"bin add r{xa} r{ya}", "L"))
+        elif st == "signed":
+            elems.append(b.emit(f"mk {mk} r{b.int_lit(rnd.choice([-1, -1, 0, 1]))}", "L"))
+        elif st == "limbs":
+            elems.append(b.emit(f"mk {mk} r{b.int_lit(rnd.randrange(0, 8))}", "L"))
+        elif st == "small":
+            elems.append(b.emit(f"mk {mk} r{b.int_lit(rnd.randrange(-9, 10))}", "L"))
+        else:
+            elems.append(b.emit(f"mk {rnd.choice(B_KINDS)} r{b.int_lit(rnd.choice([0, 1]))}", "B"))
+    if rnd.random() < 0.1:
+        elems[rnd.randrange(n)] = b.int_lit(rnd.choice([0, 1, 2, -1]))        # a plain int digit (not modelled: counted apart)
+    lst = b.emit("list " + " ".join(f"r{e}" for e in elems), "list")
+    rr = b.emit(f"call from_bits r{lst}", "L")
+    b.emit(f"call val r{rr}", "I")
+    follow_ups(rnd, b, rr)
+    return Case(cid, cfg, b.ins, {"shape": "meth", "op": "from_bits", "kinds": "digits:" + style, "malformed": False})
+
+
+def ignore_toggle_case(rnd, cid, p=BN128):
+    """error checking switched OFF AND ON AGAIN through the real API (`set ign 1` ... `set ign 0` = pysnark.runtime.ignore_errors(True) /
+    ignore_errors(False)): while it is off, out-of-domain operations return dummies (unspecified); once it is on again the run is an
+    ordinary checks-on run: in-domain operations give Python's values and the first out-of-domain operation raises.
+    meta['must_raise'] = index of the instruction that has to raise (None for the control programs)"""
+    cfg = cfg_for(rnd, p=p); cfg["ign"] = 0
+    if cfg["bl"] < 6:
+        cfg["bl"] = rnd.choice([8, 12, 16])
+    bl = cfg["bl"]; half = 1 << (bl - 1); full = 1 << bl
+    q = max(2, 1 << (bl // 2 - 1))
+    b = Builder(rnd, cfg)
+    mk = lambda v: b.emit(f"mk {rnd.choice(['priv', 'priv', 'pub'])} r{b.int_lit(v)}", "L")
+    a = mk(rnd.randrange(1, q)); c = mk(rnd.randrange(1, q)); z = mk(0)
+    lo = mk(-rnd.randrange(full, 2 * full)); hi = mk(rnd.randrange(full, 2 * full))       # lo < hi, difference beyond the bitlength
+    odd = mk(2 * rnd.randrange(1, q) + 1); two = mk(2)
+    neg = mk(-rnd.randrange(1, half))
+
+    def out_of_domain():
+        """(instruction text, result kind, name): raises when checks are on; Python's own answer, where it has one, is not the dummy 0"""
+        k = rnd.choice(["cmp", "cmp", "zero-div", "inexact-div", "to_bits-wide", "to_bits-neg", "assert-false", "rshift-wide",
+                        "assert_positive-neg", "and-wide", "check_positive-wide"])
+        if k == "cmp":
+            op = rnd.choice(["lt", "le", "gt", "ge"])
+            x, y = (lo, hi) if op in ("lt", "le") else (hi, lo)                 # true in Python, difference too wide for the gadget
+            return f"bin {op} r{x} r{y}", "B", k
+        if k == "zero-div": return f"bin {rnd.choice(['floordiv', 'mod', 'truediv'])} r{a} r{z}", "?", k
+        if k == "inexact-div": return f"bin truediv r{odd} r{two}", "?", k
+        if k == "to_bits-wide": return f"call to_bits r{hi}", "?", k
+        if k == "to_bits-neg": return f"call to_bits r{neg}", "?", k
+        if k == "assert-false":
+            m, x, y = rnd.choice([("assert_lt", a, neg), ("assert_eq", a, neg), ("assert_ne", a, a), ("assert_gt", neg, a), ("assert_le", a, neg),
+                                  ("assert_ge", neg, a)])
+            return f"call {m} r{x} r{y}", "N", k
+        if k == "rshift-wide": return f"bin rshift r{hi} r{b.int_lit(1)}", "?", k
+        if k == "assert_positive-neg": return f"call assert_positive r{neg}", "N", k
+        if k == "and-wide": return f"bin and r{hi} r{a}", "?", k
+        return f"call check_positive r{hi}", "B", k
+
+    def in_domain():
+        op = rnd.choice(["add", "mul", "sub", "lt", "ge", "eq", "floordiv", "mod", "and"])
+        return b.emit(f"bin {op} r{a} r{c}", "B" if op in CMPS else "L")
+
+    pattern = rnd.choice(["off-on", "off-on", "off-on", "off-ops-on", "off-ops-on", "off-ops-on", "off-on-off-on", "on-only", "off-off-on"])
+    used = []
+    if pattern != "on-only":
+        b.emit("set ign 1", "N")
+        if pattern == "off-off-on": b.emit("set ign 1", "N")
+        if pattern == "off-ops-on":
+            for _ in range(rnd.randrange(1, 3)):
+                t, k, nm = out_of_domain(); b.emit(t, "?"); used.append("off:" + nm)
+            in_domain()
+        b.emit("set ign 0", "N")
+        if pattern == "off-on-off-on":
+            b.emit("set ign 1", "N"); t, k, nm = out_of_domain(); b.emit(t, "?"); used.append("off:" + nm); b.emit("set ign 0", "N")
+    else:
+        b.emit("set ign 0", "N")
+    for _ in range(rnd.randrange(0, 3)):
+        r = in_domain()
+        if rnd.random() < 0.4: b.emit(f"call val r{r}", "I")
+    must = None
+    if rnd.random() < 0.8:
+        t, k, nm = out_of_domain(); must = b.emit(t, k); used.append("on:" + nm)
+        if k != "N": b.emit(f"call val r{must}", "I")
+    r = in_domain(); b.emit(f"call val r{r}", "I")
+    return Case(cid, cfg, b.ins, {"shape": "ignore-toggle", "op": "+".join(used) or "none", "kinds": pattern, "malformed": must is not None,
+                                  "must_raise": must})
